@@ -162,7 +162,7 @@ FRAME_MACH = {  # machine: (class, code align, data align, return column, CFA re
 }
 
 
-def gen_cfa_program(rng, caf, daf, cfa_reg, saved, n):
+def gen_cfa_program(rng, caf, daf, cfa_reg, saved, n, nested=False):
     """A prologue/epilogue-shaped instruction sequence: every register rule is an offset rule, states are
     remembered before they are restored."""
     out = bytearray()
@@ -211,10 +211,16 @@ def gen_cfa_program(rng, caf, daf, cfa_reg, saved, n):
             cfa_expr = False
         elif k < 0.8:
             # the signed, factored forms: with a negative data alignment factor a positive operand is a negative offset
-            if rng.random() < 0.5:
+            c = rng.random()
+            if c < 0.35:
                 out += b'\x13' + sleb(rng.choice([1, 2, -2, 5]))
-            else:
+            elif c < 0.6:
                 out += b'\x12' + uleb(rng.choice(saved)) + sleb(rng.choice([1, -1, 3]))
+            elif c < 0.85:
+                # value rules; operands whose LEB128 form has bit 6 set in the last byte read differently as signed numbers
+                out += b'\x14' + uleb(rng.choice(saved)) + uleb(rng.choice([0, 1, 64, 100, 127, 128, 8192 + 5]))
+            else:
+                out += b'\x15' + uleb(rng.choice(saved)) + sleb(rng.choice([0, 1, -1, 64, -65]))
         elif k < 0.86:
             out += b'\x0a'
             depth += 1
@@ -239,6 +245,10 @@ def gen_cfa_program(rng, caf, daf, cfa_reg, saved, n):
                 out += b'\x10' + uleb(rng.choice(saved)) + uleb(len(e)) + e
             else:
                 out += b'\x16' + uleb(rng.choice(saved)) + uleb(len(e)) + e
+    if nested and not cfa_expr:
+        # remembered states nested two deep, every state different, a row after each step
+        for step in (b'\x0a', b'\x0e' + uleb(cfa_off + 5 * abs(daf)), b'\x0a', b'\x0e' + uleb(cfa_off + 9 * abs(daf)), b'\x0b', b'\x0b'):
+            out += step + b'\x41'
     return bytes(out)
 
 
@@ -291,7 +301,7 @@ def gen_frames_file(rng):
                 late = []
             for f in range(rng.choice([1, 2, 4])):
                 fde_off = len(sec)
-                prog = gen_cfa_program(rng, caf, daf, cfa_reg, saved, rng.choice([2, 6, 15]))
+                prog = gen_cfa_program(rng, caf, daf, cfa_reg, saved, rng.choice([2, 6, 15]), nested=f == 0 and getattr(rng, 'variant', 0) % 2 == 0)
                 pc = 0x1000 + 0x100 * f + 0x1000 * c
                 field = base + fde_off + 8
                 fa = b''
@@ -330,7 +340,7 @@ def gen_frames_file(rng):
             cie = (b'\xff\xff\xff\xff' + struct.pack('<Q', len(body)) if fmt64 else struct.pack('<I', len(body))) + body
             fdes = []
             for f in range(rng.choice([1, 3])):
-                prog = gen_cfa_program(rng, caf, daf, cfa_reg, saved, rng.choice([2, 6, 15]))
+                prog = gen_cfa_program(rng, caf, daf, cfa_reg, saved, rng.choice([2, 6, 15]), nested=f == 0 and getattr(rng, 'variant', 0) % 2 == 1)
                 fdes.append((struct.pack(A, 0x401000 + 0x200 * f) + struct.pack(A, rng.choice([0x10, 0x1f0])) + prog))
 
             def fde_bytes(tail, cie_at):
